@@ -298,6 +298,205 @@ pub fn gen_case(rng: &mut Rng) -> Case {
     Case { version, method, uri, headers, body, origin, origin_closes: closes, quotas, origin_quotas }
 }
 
+/// the forwarded request must let the origin delimit its body: body bytes after the head need a
+/// Content-Length or a chunked Transfer-Encoding in the head
+fn request_framing_problem(out: &str) -> bool {
+    let req = match out.split(' ').find_map(|t| t.strip_prefix("req=")) {
+        Some(x) => unhex(x),
+        None => return false,
+    };
+    match req.windows(4).position(|w| w == b"\r\n\r\n") {
+        Some(p) => {
+            let head = String::from_utf8_lossy(&req[..p]).to_ascii_lowercase();
+            req.len() > p + 4 && !head.contains("\r\ncontent-length:") && !head.contains("\r\ntransfer-encoding:")
+        }
+        None => false,
+    }
+}
+
+fn emit_case(ctx: &mut Ctx, c: &Case) {
+    let q = case_line(c);
+    match exec(c) {
+        Ok(out) => {
+            if request_framing_problem(&out) {
+                ctx.oracle_failure(
+                    "unframed-request-body",
+                    &format!("forwarded request has a body but neither Content-Length nor Transfer-Encoding: {}", q),
+                );
+            }
+            ctx.emit(&q, &out)
+        }
+        Err(m) => ctx.oracle_failure("panic", &format!("forwarded sink panicked ({}) on {}", m, q)),
+    }
+}
+
+/// independent reference for the live runs: the body an origin byte stream encodes
+fn reference_body(resp_after_head: &[u8], chunked: bool) -> Vec<u8> {
+    if !chunked {
+        return resp_after_head.to_vec();
+    }
+    let mut out = vec![];
+    let mut i = 0;
+    loop {
+        let line_end = match resp_after_head[i..].windows(2).position(|w| w == b"\r\n") {
+            Some(p) => i + p,
+            None => return out,
+        };
+        let line = String::from_utf8_lossy(&resp_after_head[i..line_end]).to_string();
+        let n = usize::from_str_radix(line.split(';').next().unwrap_or("").trim(), 16).unwrap_or(0);
+        i = line_end + 2;
+        if n == 0 {
+            return out;
+        }
+        out.extend_from_slice(&resp_after_head[i..(i + n).min(resp_after_head.len())]);
+        i += n + 2;
+        if i > resp_after_head.len() {
+            return out;
+        }
+    }
+}
+
+/// non-CONNECT requests through real HTTP/1.1 and HTTP/2 sessions and the real direct forwarder
+/// to a loopback origin that answers with a scripted byte stream in scripted segments
+fn live(ctx: &mut Ctx) {
+    use crate::c16;
+    use std::io::{Read, Write};
+    use std::time::{Duration, Instant};
+    use trusttunnel::verif::vlive;
+    let tw = c16::make_tcp_world();
+    let n = if ctx.thorough() { 60 } else { 16 };
+    for k in 0..n {
+        let h2 = k % 2 == 0;
+        let body_len = *ctx.rng.pick(&[0usize, 1, 10, 1000, 40000]);
+        let body: Vec<u8> = (0..body_len).map(|i| b'a' + (i % 26) as u8).collect();
+        let chunked_resp = ctx.rng.chance(1, 2);
+        let interim = ctx.rng.chance(1, 2);
+        let mut resp: Vec<u8> = vec![];
+        if interim {
+            resp.extend_from_slice(b"HTTP/1.1 100 Continue\r\n\r\n");
+        }
+        let mut after_head: Vec<u8> = vec![];
+        if chunked_resp {
+            resp.extend_from_slice(b"HTTP/1.1 200 OK\r\nTransfer-Encoding: chunked\r\nX-A: 1\r\n\r\n");
+            let sizes: Vec<usize> = (0..6).map(|_| ctx.rng.range(1, 3000) as usize).collect();
+            after_head = chunked(&body, &sizes, true, false);
+        } else {
+            resp.extend_from_slice(format!("HTTP/1.1 200 OK\r\nContent-Length: {}\r\nX-A: 1\r\n\r\n", body.len()).as_bytes());
+            after_head.extend_from_slice(&body);
+        }
+        resp.extend_from_slice(&after_head);
+        let style = ctx.rng.range(0, 3);
+        let segs = segment(&mut ctx.rng, &resp, if style == 1 { 3 } else { style });
+        let desc = format!("live {} body={} chunked={} interim={} segments={}", if h2 { "h2" } else { "h1" }, body_len, chunked_resp, interim, segs.len());
+        let rt = tokio::runtime::Builder::new_current_thread().enable_all().start_paused(true).build().unwrap();
+        let origin = tw.origin;
+        let listener = &tw.listener;
+        let got: Result<(u16, Vec<u8>, Vec<u8>), String> = rt.block_on(async {
+            let core = c16::make_core_pub();
+            let spin = |ms: u64| async move {
+                let t = Instant::now();
+                while t.elapsed() < Duration::from_millis(ms) {
+                    for _ in 0..50 {
+                        tokio::task::yield_now().await;
+                    }
+                }
+            };
+            let uri = format!("http://{}/p?q=1", origin);
+            let mut h1s = None;
+            let mut h2s = None;
+            let mut st = None;
+            if h2 {
+                let mut s = vlive::open_h2(&core, "localhost").await.ok_or("h2 handshake")?;
+                st = Some(s.request("GET", &uri, &[("accept".to_string(), "*/*".to_string())], true).await.ok_or("h2 request")?);
+                h2s = Some(s);
+            } else {
+                let mut s = vlive::open_h1(&core, "localhost");
+                s.send(format!("GET {} HTTP/1.1\r\nHost: {}\r\nAccept: */*\r\n\r\n", uri, origin).as_bytes());
+                h1s = Some(s);
+            }
+            // the origin: accept, read the request head, answer in segments
+            let t0 = Instant::now();
+            let mut conn = loop {
+                spin(1).await;
+                if let Ok((c, _)) = listener.accept() {
+                    break c;
+                }
+                if t0.elapsed() > Duration::from_secs(3) {
+                    return Err("origin saw no connection".to_string());
+                }
+            };
+            conn.set_nodelay(true).ok();
+            conn.set_nonblocking(true).ok();
+            let mut req = vec![];
+            let t0 = Instant::now();
+            while !req.windows(4).any(|w| w == b"\r\n\r\n") {
+                spin(1).await;
+                let mut buf = [0u8; 4096];
+                if let Ok(n) = conn.read(&mut buf) {
+                    req.extend_from_slice(&buf[..n]);
+                }
+                if t0.elapsed() > Duration::from_secs(3) {
+                    return Err("origin saw no request head".to_string());
+                }
+            }
+            conn.set_nonblocking(false).ok();
+            for sg in &segs {
+                let _ = conn.write_all(sg);
+                spin(1).await;
+            }
+            spin(8).await;
+            drop(conn);
+            spin(8).await;
+            let _ = &h2s;
+            match (st.as_mut(), h1s.as_mut()) {
+                (Some(st), _) => {
+                    st.poll();
+                    Ok((st.status.unwrap_or(0), st.received.clone(), req))
+                }
+                (_, Some(h)) => {
+                    h.poll();
+                    let raw = h.received.clone();
+                    // skip interim heads
+                    let mut rest: &[u8] = &raw;
+                    let mut status = 0u16;
+                    loop {
+                        let p = match rest.windows(4).position(|w| w == b"\r\n\r\n") {
+                            Some(p) => p,
+                            None => break,
+                        };
+                        let head = String::from_utf8_lossy(&rest[..p]).to_string();
+                        status = head.split(' ').nth(1).and_then(|x| x.parse().ok()).unwrap_or(0);
+                        rest = &rest[p + 4..];
+                        if status >= 200 {
+                            break;
+                        }
+                    }
+                    Ok((status, rest.to_vec(), req))
+                }
+                _ => Err("no client".to_string()),
+            }
+        });
+        ctx.stat("live_runs");
+        match got {
+            Err(e) => ctx.oracle_failure("live-forward", &format!("{}: {}", desc, e)),
+            Ok((status, client_body, req)) => {
+                // an HTTP/1.1 client gets the chunked framing as is; an HTTP/2 client the body
+                let want = if h2 { body.clone() } else { reference_body(&after_head, false) };
+                let want = if !h2 && chunked_resp { after_head.clone() } else { want };
+                let req_s = String::from_utf8_lossy(&req).to_string();
+                let req_ok = req_s.starts_with("GET /p?q=1 HTTP/1.1\r\n") && req_s.to_ascii_lowercase().contains(&format!("\r\nhost: {}\r\n", origin)) && req_s.to_ascii_lowercase().contains("\r\naccept: */*\r\n");
+                if status != 200 || client_body != want || !req_ok {
+                    ctx.oracle_failure(
+                        "live-forward",
+                        &format!("{}: status {} body {}B (want {}B, equal={}) request ok={} [{}]", desc, status, client_body.len(), want.len(), client_body == want, req_ok, req_s.replace("\r\n", "\\r\\n")),
+                    );
+                }
+                let _ = reference_body;
+            }
+        }
+    }
+}
+
 pub fn run(ctx: &mut Ctx) {
     let n = if ctx.thorough() { 20000 } else { 2500 };
     let mut cases: Vec<Case> = vec![];
@@ -326,11 +525,7 @@ pub fn run(ctx: &mut Ctx) {
     cases.push(base(2, vec![b"HTTP/1.1 200 OK\r\nContent-Length: 10\r\n\r\n0123456789XY"], vec![8], true));
     cases.push(base(11, vec![b"HTTP/1.1 200 OK\r\nContent-Length: 5\r\n\r\n", b"01234EXTRA"], vec![], true));
     for c in cases.drain(..).collect::<Vec<_>>() {
-        let q = case_line(&c);
-        match exec(&c) {
-            Ok(out) => ctx.emit(&q, &out),
-            Err(m) => ctx.oracle_failure("panic", &format!("forwarded sink panicked ({}) on {}", m, q)),
-        }
+        emit_case(ctx, &c);
     }
     for _ in 0..n {
         let c = gen_case(&mut ctx.rng);
@@ -338,10 +533,34 @@ pub fn run(ctx: &mut Ctx) {
         ctx.stat(&format!("method_{}", c.method));
         ctx.stat(if c.quotas.is_empty() { "sink_accepts_all" } else { "sink_partial" });
         ctx.stat(if c.origin.len() == 1 { "origin_one_segment" } else { "origin_segmented" });
-        let q = case_line(&c);
-        match exec(&c) {
-            Ok(out) => ctx.emit(&q, &out),
-            Err(m) => ctx.oracle_failure("panic", &format!("forwarded sink panicked ({}) on {}", m, q)),
+        emit_case(ctx, &c);
+    }
+    // (b) malformed origin streams: nothing is compared, the sink must not panic
+    for _ in 0..n / 2 {
+        let mut c = gen_case(&mut ctx.rng);
+        let mut all: Vec<u8> = c.origin.concat();
+        if all.is_empty() {
+            continue;
+        }
+        for _ in 0..ctx.rng.range(1, 4) {
+            let i = ctx.rng.below(all.len() as u64) as usize;
+            match ctx.rng.below(4) {
+                0 => all[i] = ctx.rng.next() as u8,
+                1 => {
+                    all.remove(i);
+                    if all.is_empty() {
+                        all.push(b'x');
+                    }
+                }
+                2 => all.insert(i, *ctx.rng.pick(&[b'\r', b'\n', b';', b'0', b'f', b' ', 0xff])),
+                _ => all.extend_from_slice(b"TRAILING"),
+            }
+        }
+        c.origin = segment(&mut ctx.rng, &all, 3);
+        ctx.stat("malformed_streams");
+        if let Err(m) = exec(&c) {
+            ctx.oracle_failure("panic", &format!("forwarded sink panicked ({}) on {}", m, case_line(&c)));
         }
     }
+    live(ctx);
 }
